@@ -752,9 +752,10 @@ def run_analytic(case):
     except BaseException as e:       # noqa  (pyo3 panics derive from BaseException)
         kind, msg = type(e).__name__, str(e)
         if kind == 'PanicException' and o.get('scan'):
-            r.bad({'pass': name, 'symptom': 'qfactor_not_capable', 'via': 'ScanningGateRemovalPass(method=qfactor), native panic'},
+            r.bad({'pass': name, 'symptom': 'qfactor_native_panic', 'via': 'ScanningGateRemovalPass(method=qfactor)'},
                   'the pass completes', f'{kind}: {msg}',
-                  f'{name}(perform_scan=True) instantiates with method=qfactor a circuit holding a gate the native QFactor does not implement')
+                  f'{name}(perform_scan=True) instantiates with method=qfactor a circuit holding a U3Gate: QFactor.is_capable accepts it '
+                  '(U3Gate is a LocallyOptimizableUnitary) but the native QFactor panics `not implemented` (src/ir/gates/optimize.rs)')
         elif kind == 'IndexError' and o.get('scan') and o.get('depth', 0) > 0 and not o.get('left', True):
             r.bad({'pass': 'TreeScanningGateRemovalPass', 'start_from_left': False, 'symptom': 'IndexError', 'via': name}, 'the pass completes',
                   f'IndexError: {msg}', f'{name}(perform_scan, tree_depth>0, start_from_left=False): the inner tree scan raises IndexError (stale cycle index)')
@@ -1518,7 +1519,10 @@ def gen_tasks(ctx, rng, scale=1.0, only=None):
                 o['extract'] = rng.random() < 0.15
                 if rng.random() < 0.1:
                     o['scan'] = True
-            add('analytic', dict(p=name, circ=gen_vu_circ(rng, 3, nmax), opts=o), 120)
+            circ = gen_vu_circ(rng, 3, nmax)
+            if o.get('scan') and rng.random() < 0.8:
+                circ['ops'] = [op for op in circ['ops'] if op[0] == 'VU']
+            add('analytic', dict(p=name, circ=circ, opts=o), 120)
     for _ in range(n(16, 200)):
         add('walsh', dict(p='WalshDiagonalSynthesisPass', n=rng.randint(1, 4 if not th else 5), seed=rng.randint(0, 10**6),
                           bad='qutrit' if rng.random() < 0.08 else None))
@@ -2037,19 +2041,27 @@ def run(ctx: vf.Ctx):
 def replay(ctx, data):
     case = data.get('case')
     if not isinstance(case, dict) or 'p' not in case:
-        print('replay: nothing to re-run (broken obligation)')
+        print('replay: nothing to re-run (broken obligation); see the replay file for the failing theorem / translator output')
         return
-    fam = None
-    for f, fn in RUNNERS.items():
-        pass
-    fam = data.get('fam') or fam_of(case)
-    res = do_task(dict(fam=fam, case=case, timeout=300))
+    res = do_task(dict(fam=data.get('fam') or fam_of(case), case=case, timeout=600))
     absorb(ctx, [res], {})
-    print('replay:', 'still fails' if res['issues'] else 'passes now', json.dumps(res['issues'], default=str)[:600])
+    if all(ctx.extract_ok.get(k) for k in BUILD['extracted']):
+        rules_correspondence(ctx, [res])
+        skeleton_correspondence(ctx, [res])
+        rebase_correspondence(ctx, [res])
+        util_correspondence(ctx, [res])
+    print('replay:', 'still fails' if (res['issues'] or ctx.violations) else 'passes now',
+          json.dumps(res['issues'] or [v['what'] for v in ctx.violations], default=str)[:600])
 
 
 def fam_of(case):
     p = case['p']
+    if case.get('kind') in ('scan', 'tree', 'exh', 'iter'):
+        return 'cosim'
+    if case.get('kind') == 'rebase':
+        return 'rebase_cosim'
+    if 'radix' in case and p == 'GeneralSQDecomposition':
+        return 'gsq'
     if p in RULES:
         return 'rule'
     return {'U3Decomposition': 'u3dec', 'ZXZXZDecomposition': 'zxzxz', 'GeneralSQDecomposition': 'gsq',
